@@ -419,9 +419,13 @@ fn is_check_cords(board: &BoardState, color: PieceColor, square_cords: Point) ->
     }
 
     // Check from king
-    // By using the king location here we can just check if they are within one square of each other
-    (board.black_king_location.0 as i8 - board.white_king_location.0 as i8).abs() <= 1
-        && (board.black_king_location.1 as i8 - board.white_king_location.1 as i8).abs() <= 1
+    // The probed square is attacked by the enemy king if they are within one square of each other
+    let attacking_king = match color {
+        White => board.black_king_location,
+        Black => board.white_king_location,
+    };
+    (attacking_king.0 as i8 - square_cords.0 as i8).abs() <= 1
+        && (attacking_king.1 as i8 - square_cords.1 as i8).abs() <= 1
 }
 
 /*
